@@ -461,7 +461,7 @@ class Unit:
     def take_fn(self, sf, path, contract="", ret="r", pre_body="", loops=None, loop_attrs=None, hints=(),
                 e9=(), ghost=None, ghost_calls=(), external_body=False, keep_attrs=(), make_pub=True,
                 rename=None, drop_body=False, e10=True, extra_attrs="", under_contract=True, sig_edits=(),
-                lift_closures=()):
+                lift_closures=(), loop_iter_names=None):
         """Extract one function verbatim and splice contract text into it.
         contract   : text placed between signature and body (requires/ensures/decreases)
         ret        : name given to the return value ('-> T' becomes '-> (r: T)')
@@ -547,6 +547,12 @@ class Unit:
                         raise Undecided("%s: loop ordinal %d not found" % (path, k))
                     ls = it["loops"][k]["span"][0]
                     edits.append((ls, ls, at + " ", "contract", "E7"))
+                for k, nm in (loop_iter_names or {}).items():
+                    # E7: Verus' ghost name for the iterator of a `for` loop: `for x in NAME: expr`
+                    if k >= len(it["loops"]) or it["loops"][k]["kind"] != "for":
+                        raise Undecided("%s: loop ordinal %d is not a for loop" % (path, k))
+                    es = it["loops"][k]["expr"][0]
+                    edits.append((es, es, nm + ": ", "contract", "E7"))
                 for h in hints:
                     anchor, ordinal, where, text = h
                     a, b = self.find_anchor(sf, lo, hi, anchor, ordinal, path)
